@@ -160,7 +160,13 @@ class BPTerms:
                 elif isinstance(t, ast.Subscript) and U(t.value) == 'messages':
                     self.stores.append((s, self.term(t.slice), v))
                 elif isinstance(t, ast.Subscript) and U(t.value) == 'beliefs':
-                    self.absorbs.append((s, self.term(t.slice), ('assign', v)))
+                    k = self.term(t.slice)
+                    if isinstance(s.value, ast.BinOp) and isinstance(s.value.op, ast.Add) and self.term(s.value.left) == ('belief', k):
+                        self.absorbs.append((s, k, self.term(s.value.right)))       # beliefs[k] = beliefs[k] + x  ==  beliefs[k] += x
+                    elif isinstance(s.value, ast.BinOp) and isinstance(s.value.op, ast.Add) and self.term(s.value.right) == ('belief', k):
+                        self.absorbs.append((s, k, self.term(s.value.left)))
+                    else:
+                        self.absorbs.append((s, k, ('assign', v)))
             elif isinstance(s, ast.AugAssign) and isinstance(s.target, ast.Subscript) and U(s.target.value) == 'beliefs' \
                     and isinstance(s.op, ast.Add):
                 self.absorbs.append((s, self.term(s.target.slice), self.term(s.value)))
